@@ -32,8 +32,8 @@ var defaultIV = []byte{0xA6, 0xA6, 0xA6, 0xA6, 0xA6, 0xA6, 0xA6, 0xA6}
 
 // Wrap encrypts the provided key data (cek) with the given AES cipher (and corresponding key), using the AES Key Wrap algorithm (RFC-3394)
 func Wrap(block cipher.Block, cek []byte) ([]byte, error) {
-	if len(cek)%8 != 0 {
-		return nil, errors.New("cek must be in 8-byte blocks")
+	if len(cek) < 16 || len(cek)%8 != 0 {
+		return nil, errors.New("cek must be at least 16 bytes and in 8-byte blocks")
 	}
 
 	// Initialize variables
@@ -76,6 +76,11 @@ func Wrap(block cipher.Block, cek []byte) ([]byte, error) {
 // Unwrap decrypts the provided cipher text with the given AES cipher (and corresponding key), using the AES Key Wrap algorithm (RFC-3394).
 // The decrypted cipher text is verified using the default IV and will return an error if validation fails.
 func Unwrap(block cipher.Block, cipherText []byte) ([]byte, error) {
+	// A wrapped key is the 8-byte integrity value followed by at least two 8-byte blocks
+	if len(cipherText) < 24 || len(cipherText)%8 != 0 {
+		return nil, errors.New("cipherText must be at least 24 bytes and in 8-byte blocks")
+	}
+
 	// Initialize variables
 	a := make([]byte, 8)
 	n := (len(cipherText) / 8) - 1
